@@ -32,7 +32,9 @@ Inductive opreq :=
 | QActivate (u : option Z)
 | QDestroy (u : option Z)
 | QAttrList (u : option Z)        (* GetAttributeList: depends on the attribute policy    *)
-| QDiscover.                      (* DiscoverVersions: needs KMIP 1.1                     *)
+| QDiscover                       (* DiscoverVersions: needs KMIP 1.1                     *)
+| QQuery (with_ops : bool).       (* Query; with_ops: the function list contains QueryOperations - the operation list
+                                     answered depends on the protocol version (1.0: 12, 1.1: 13, 1.2 and later: 18) *)
 
 Record req := mkReq { r_ver : Z; r_ops : list opreq }.
 
@@ -67,6 +69,7 @@ Inductive mop :=
 | MSetPh                    (* _id_placeholder := new identifier                                                       *)
 | MActivate | MDestroy
 | MAttrs                    (* reads _attribute_policy                                                                 *)
+| MQuery (with_ops : bool)  (* _process_query: reads _protocol_version twice (>= 1.1, >= 1.2)                          *)
 | MEmit (opc : Z)           (* the batch item's result                                                                 *)
 | MClose.                   (* end of `with session`                                                                   *)
 
@@ -153,6 +156,12 @@ Definition interp (m : mop) (p : shared * local) : shared * local :=
         (sh, mkLocal (l_target l) (l_obj l) (l_fail l) (l_new l) (l_who l) (Some (s_apol sh))
                      (if 14 <=? s_apol sh then 1 else 0) (l_stop l) (l_out l))
       else (sh, l)
+  | MQuery with_ops =>
+      if active l then
+        (sh, mkLocal (l_target l) (l_obj l) (l_fail l) (l_new l) (l_who l) (Some (s_ver sh))
+                     (if with_ops then 12 + (if 11 <=? s_ver sh then 1 else 0) + (if 12 <=? s_ver sh then 5 else 0) else 0)
+                     (l_stop l) (l_out l))
+      else (sh, l)
   | MEmit opc =>
       if l_stop l then (sh, l)
       else
@@ -164,7 +173,7 @@ Definition interp (m : mop) (p : shared * local) : shared * local :=
 
 (* KMIP Operation enumeration values *)
 Definition OP_create := 1.  Definition OP_get := 10.  Definition OP_attrlist := 12.
-Definition OP_activate := 18.  Definition OP_destroy := 20.  Definition OP_discover := 30.
+Definition OP_activate := 18.  Definition OP_destroy := 20.  Definition OP_discover := 30.  Definition OP_query := 24.
 
 Definition prog_of_op (o : opreq) : list mop :=
   match o with
@@ -174,6 +183,7 @@ Definition prog_of_op (o : opreq) : list mop :=
   | QDestroy u => [MGate 10; MResolve u; MLoad; MCheck; MDestroy; MEmit OP_destroy]
   | QAttrList u => [MResolve u; MLoad; MCheck; MAttrs; MEmit OP_attrlist]
   | QDiscover => [MGate 11; MEmit OP_discover]
+  | QQuery w => [MQuery w; MEmit OP_query]
   end.
 
 Definition prog (r : req) (c : Z) : list mop :=
